@@ -98,7 +98,7 @@ class EulerIntegrator:
         levelSet = copy.deepcopy(c)
 
         # compute maximum "height"
-        maxHeight = max([self.metric(levelSet, s) for s in levelSet.simplices()])
+        maxHeight = max([self.metric(levelSet, s) for s in levelSet.simplices()], default=0)
 
         # perform the integration over the level sets
         a = 0
